@@ -52,6 +52,7 @@ NameOK(e) ==
                                            ELSE rng)
 UnionOK(e) ==
   LET rng == e.w0..(e.w0 + e.n - 1) IN
+  /\ ("nonbus" \in DOMAIN e => BitsToSet(e.nonbus, e.w0, e.n) = rng \ BitsToSet(e.bus, e.w0, e.n))      \* a non-business day is a day that is not a business day
   /\ BitsToSet(e.bus, e.w0, e.n) = InterAll([i \in 1..Len(e.members) |-> BitsToSet(e.members[i], e.w0, e.n)], rng)
   /\ BitsToSet(e.stl, e.w0, e.n) = (IF e.has_settle THEN InterAll([i \in 1..Len(e.settle) |-> BitsToSet(e.settle[i], e.w0, e.n)], rng) ELSE rng)
 \* equal exactly when the two objects agree on every business and settlement day of 1970-2200
